@@ -477,6 +477,7 @@ class StmtMixin(object):
         self.roles = dict(getattr(self, 'roles', {}))
         for j, nm in enumerate(names):
             self.roles['_w%d' % j] = nm           # _w0, _w1, ...: the variables of the loop test, in order of appearance
+            st.env['_w%d_entry' % j] = st.env[nm]  # ... and the values they have when the loop is reached
         if spec is None:
             raise OutsideSubset('loop %d (line %d) has no invariant' % (k, node.lineno))
         for lbl, text in spec.inv.items():
